@@ -855,7 +855,7 @@ impl Property for C08 {
         }
     }
     fn rule(&self) -> &'static str {
-        "each case takes one base instance (two of three from the harness generator with hints, dependencies, parameters, semi kinds, fixed values; one of three from the SDK's own proptest strategy), judges it, then applies EVERY single-fault mutation at EVERY position: duplicate a variable id (append / overwrite each other entry), duplicate a constraint id (active/active, active/removed, removed/removed), an undefined id at each term position of the objective / each constraint / each removed constraint, unset or unknown sense, absent objective, unset oneof, absent / unset constraint function, absent removed constraint, unspecified kind / equality, five invalid bound shapes per variable, eight hint faults, undefined dependency key, unset dependency function; then 10 random pairs of faults; plus one parametric-instance case (shared id, duplicate parameter, undefined id in objective / active constraint, duplicate constraint id; an undefined id that occurs only in a removed constraint is well-formed). An independent predicate decides the expected outcome of validate() and try_from (error kind, Instance field, and the context path, which may only name messages and fields on the way to the offending field of one violated rule of that kind); accepted messages are compared with the typed view through hook verif_parts. Non-trivial = every judged mutated message; distinct = fingerprint of the mutated message."
+        "each case takes one base instance (two of three from the harness generator with hints, dependencies, parameters, semi kinds, fixed values; one of three from the SDK's own proptest strategy), judges it, then applies EVERY single-fault mutation at EVERY position: duplicate a variable id (append / overwrite each other entry), duplicate a constraint id (active/active, active/removed, removed/removed), an undefined id at each term position of the objective / each constraint / each removed constraint, unset or unknown sense, absent objective, unset oneof, absent / unset constraint function, absent removed constraint, unspecified kind / equality, five invalid bound shapes per variable, eight hint faults, undefined dependency key, unset dependency function; then 10 random pairs of faults and up to 12 targeted pairs (an emptied removed entry + an undefined id in another removed constraint); plus one parametric-instance case (shared id, duplicate parameter, undefined id in objective / active constraint, duplicate constraint id; an undefined id that occurs only in a removed constraint is well-formed). An independent predicate decides the expected outcome of validate() and try_from (error kind, Instance field, and the context path, which may only name messages and fields on the way to the offending field of one violated rule of that kind); accepted messages are compared with the typed view through hook verif_parts. Non-trivial = every judged mutated message; distinct = fingerprint of the mutated message."
     }
     fn assumptions(&self) -> Vec<&'static str> {
         vec![
@@ -914,6 +914,33 @@ impl Property for C08 {
                 fp.u64(fp_msg(&m2)).str("pair");
                 mon.nontrivial(fp.finish());
                 judge(&m2, &format!("pair:{}+{}", fault_class(&faults[a].0), fault_class(&faults[b].0)), mon);
+            }
+        }
+        // targeted pairs: a removed entry without content next to an undefined id elsewhere among the
+        // removed constraints (an empty entry must not end the walk over the list)
+        {
+            let empties: Vec<usize> = faults.iter().enumerate().filter(|(_, f)| f.0.starts_with("removed-constraint-absent@")).map(|(i, _)| i).collect();
+            let undefs: Vec<usize> = faults.iter().enumerate().filter(|(_, f)| f.0.starts_with("undefined-id:removed")).map(|(i, _)| i).collect();
+            let mut done = 0;
+            'outer: for a in &empties {
+                for b in &undefs {
+                    if done >= 12 {
+                        break 'outer;
+                    }
+                    let r = std::panic::catch_unwind(std::panic::AssertUnwindSafe(|| {
+                        let mut m = base.clone();
+                        (faults[*b].1)(&mut m);
+                        (faults[*a].1)(&mut m);
+                        m
+                    }));
+                    let Ok(m2) = r else { continue };
+                    done += 1;
+                    mon.facet("fault-pair:empty-removed-entry+undefined-id-in-a-removed-constraint");
+                    let mut fp = Fp::new();
+                    fp.u64(fp_msg(&m2)).str("pair-targeted");
+                    mon.nontrivial(fp.finish());
+                    judge(&m2, &format!("pair:{}+{}", fault_class(&faults[*a].0), fault_class(&faults[*b].0)), mon);
+                }
             }
         }
         parametric_case(rng, mon);
